@@ -11,3 +11,4 @@ import RosuModel.Props.C15IeeeDecoded
 import RosuModel.Props.C15IeeeShift
 import RosuModel.Props.C15IeeeVelocity
 import RosuModel.Props.C15ComboOnly
+import RosuModel.Props.C15ComboOnlyAny
